@@ -51,6 +51,7 @@ def run(ctx):
     import c18
     c07.rule_cat(ctx, F)
     c18.rule_tail(ctx, F)
+    c03.rule_esc(ctx, F)    # what Label's Display leaves unescaped against the reader (shared with C03)
 
 
 # ---------------------------------------------------------------------------
